@@ -141,6 +141,23 @@ let au_oracle_case script trace =
        | Some l -> let want = "lt " ^ au_b2c (au_lt (au_bytes (hex_dec (List.nth a.pos 0))) (au_bytes (hex_dec (List.nth a.pos 1)))) in
          if l <> want then fail (Printf.sprintf "step=%d name-order-differs got=%s want=%s" li l want)
        | None -> ())
+    | Some ("au_conc", a) ->
+      (match next li with
+       | None -> ()
+       | Some l ->
+         let t = toks_of l in
+         if List.hd t <> "cc" then fail (Printf.sprintf "step=%d unexpected-line %s" li l) else
+         (match tok_val t "seqs" with
+          | None -> fail (Printf.sprintf "step=%d no-sequences %s" li l)
+          | Some sq ->
+            List.iter (fun tok ->
+              match String.split_on_char ':' tok with
+              | [p0; seq; fin] ->
+                let calls = if seq = "-" then [] else
+                  List.map (fun c -> if c = 'R' then AcResumeCall else AcPauseCall) (List.of_seq (String.to_seq seq)) in
+                if not (auc_round_ok (p0 = "1") calls (fin = "1")) then
+                  fail (Printf.sprintf "kind=concurrent calls=%s (initial-paused:calls:final-paused) violates-C10 step=%d" tok li)
+              | _ -> fail (Printf.sprintf "step=%d bad-sequence-token %s" li tok)) (String.split_on_char ',' sq)))
     | Some ("au_cfg", a) -> au_do_cfg a
     | Some ("au_obj", a) -> au_do_obj a
     | Some ("au_begin", _) ->
@@ -205,6 +222,7 @@ let au_oracle_case script trace =
 let () =
   register_op "au_sdbm" (fun a -> emit ("sdbm " ^ au_dec (au_sdbm au_p.au_p_signed (au_bytes (hex_dec (List.hd a.pos))))));
   register_op "au_lt" (fun a -> emit ("lt " ^ au_b2c (au_lt (au_bytes (hex_dec (List.nth a.pos 0))) (au_bytes (hex_dec (List.nth a.pos 1))))));
+  register_op "au_conc" (fun a -> emit (Printf.sprintf "cc n=%d rounds=%d p0=%d mix=%d seqs=?" (num a "n" 4) (num a "rounds" 100) (num a "p0" 1) (num a "mix" 0)));
   register_op "au_cfg" au_do_cfg;
   register_op "au_obj" au_do_obj;
   register_op "au_begin" (fun _ -> au_do_begin (); emit (au_objs_line (au_get !au_sys AuA)));
